@@ -11,7 +11,10 @@ git -C $wt apply $dir/patch.diff || { echo "patch does not apply"; git -C /repo 
 props=("$@")
 if [ ${#props[@]} -eq 0 ]; then props=($(python3 -c "import json;print(json.load(open('$dir/meta.json'))['property'])")); fi
 demo=$(ls $dir/demo_*.py 2>/dev/null | head -1)
-if [ -n "$demo" ]; then (cd $wt && timeout 600 /venv/bin/python $demo >/dev/null 2>&1; echo "demo with change: exit $?"); fi
+if [ -n "$demo" ]; then
+  (cd $wt && PYTHONPATH=$wt timeout 600 /venv/bin/python $demo >/dev/null 2>&1; echo "demo with change: exit $?")
+  (cd /repo && PYTHONPATH=/repo timeout 600 /venv/bin/python $demo >/dev/null 2>&1; echo "demo on /repo (unchanged): exit $?")
+fi
 for p in "${props[@]}"; do
   (cd /verif && SPLINK_REPO=$wt timeout 3000 ./check $p --tier quick 2>&1 | grep -E "VIOLATION|KNOWN-FINDING|^\[$p\]|Traceback|Error" | head -8)
 done
